@@ -896,7 +896,7 @@ theorem sort_lms_suffixes_source_eq_model (castS : Nat → Option Nat)
   Thm.GenSrcSaisLms.sort_lms_suffixes_eq_model _ _ _ castS constructF t (Sais.tyOf t) cnt rec s bsz (Sais.length_tyOf t) hsz
     (fun p hp => Sais.sym_ne_last hv p hp)
     (fun q hq => Thm.GenSrcPosTypes.is_lms_pos_eq_model _ q (by rw [Sais.length_tyOf]; exact hq))
-    hcast hc63 hnd hlt hne h0 hrp hcount hrec hback
+    hcast hc63 hnd hlt hne (fun _ => h0) hrp hcount (fun _ _ => hrec _) (fun _ _ => hback _)
 
 -- the naming of `2 1 3 1 3 1 3 0` through the translated code (sorted `pos`, LMS positions 1, 3, 5, 7 ↦ indices 0..3): the
 -- equal LMS substrings at 3 and 1 get one label (reduced text `2 2 1 0`), `label + 1 = 3 < 4`: the recursion is entered (a stub)
